@@ -68,7 +68,7 @@ type ParsedLine struct {
 	line               string
 	includeFileName    string
 	excludeFileNames   []string
-	suffixReplacements map[string]string
+	suffixReplacements []suffixReplacement
 	definitions        map[string]string
 	prefix             string
 	suffix             string
@@ -230,7 +230,14 @@ func (p *Parser) parseLine(line string) ParsedLine {
 	return pl
 }
 
-func buildPairMap(input string) map[string]string {
+// suffixReplacement is one `match replacement` pair of a suffix replacement list.
+type suffixReplacement struct {
+	match       string
+	replacement string
+}
+
+// buildPairMap returns the pairs in the order in which they were written.
+func buildPairMap(input string) []suffixReplacement {
 	if len(strings.TrimSpace(input)) == 0 {
 		return nil
 	}
@@ -241,9 +248,9 @@ func buildPairMap(input string) map[string]string {
 		logger.Panic().Msgf("uneven number of arguments found: %s", input)
 	}
 
-	pairMap := map[string]string{}
+	pairMap := make([]suffixReplacement, 0, len(list)/2)
 	for i := 0; i < len(list); i += 2 {
-		pairMap[list[i]] = list[i+1]
+		pairMap = append(pairMap, suffixReplacement{match: list[i], replacement: list[i+1]})
 	}
 
 	logger.Trace().Msgf("Built pair map: %v", pairMap)
